@@ -680,6 +680,13 @@ pub(crate) struct SyncConfig {
 
 impl Default for SyncConfig {
     fn default() -> Self {
+        #[cfg(feature = "verif")]
+        if let Some((split_factor, max_set_size)) = crate::verif::sync_config_override() {
+            return SyncConfig {
+                max_set_size,
+                split_factor,
+            };
+        }
         SyncConfig {
             max_set_size: 1,
             split_factor: 2,
